@@ -38,6 +38,8 @@ def main():
             continue
         R.merge(res)
     R.extra["exhaustive"] = False
+    from vf import lazyimport
+    lazyimport.run_family(R, ['constants'], label="C08")
     R.assumptions = ["an exception crossing an *open* _if/_while block does not end that region (DESIGN.md 6.5): only regions with an end event are judged",
                      "abort points = every LINE event of the generated code objects (statement starts), enumerated per program"]
     return R.finish(require_counters=("region_ends_judged", "injected_aborts", "inside_invariants_checked", "add_guard_calls",
@@ -115,6 +117,9 @@ class SrcGen:
             else:
                 self.simple(ind, eff, in_block)
             made += 1
+        if r.random() < 0.08:
+            # the body's last act: the user switches error suppression on or off; leaving the region must undo that too
+            self.emit(ind, "ignore_errors(%s)" % r.choice(["True", "False"]))
 
     def region(self, ind, depth, eff):
         r = self.rnd
@@ -524,7 +529,7 @@ def worker(job):
             if trial:
                 ins[nfix:] = [rnd.randint(0, 1) for _ in ins[nfix:]]
             M.reset()
-            out = G.run_api(prog, ins, N, pre=lambda ns: ns.update({"__enter": M.enter, "__leave": M.leave, "__inside": lambda *a: None}), chunks=chunks,
+            out = G.run_api(prog, ins, N, pre=lambda ns: ns.update({"__enter": M.enter, "__leave": M.leave, "__inside": lambda *a: None, "ignore_errors": M.rt.ignore_errors}), chunks=chunks,
                             ignore=M.base_ignore)
             if out.exc is not None:
                 continue
@@ -557,6 +562,7 @@ def execute(G, N, M, fp, R, prog, chunks, inputs, k, src, base=False):
 
     def pre(ns):
         ns["__enter"], ns["__leave"], ns["__inside"] = M.enter, M.leave, M.inside
+        ns["ignore_errors"] = M.rt.ignore_errors
         M.watch_block_api()
     fp.arm(chunks, k, base)
     try:
